@@ -20,6 +20,9 @@ use ctx::*;
 use dom::*;
 use std::sync::{Arc, OnceLock};
 
+#[global_allocator]
+static GLOBAL: sut::CountingAlloc = sut::CountingAlloc;
+
 static CTX: OnceLock<Arc<RunCtx>> = OnceLock::new();
 
 fn usage() -> ! {
